@@ -103,6 +103,7 @@ def rule_text(chk, P):
                   ("C15.ref", P + ".names-qualified"), ("C15.anchor", P + ".anchor/c15"), ("C15.floor", P + ".floor/c15")])
     c15.rule_namemap(nx)
     c15.rule_qualified_refs(nx)
+    c15.rule_qualified_eval(nx)
 
 
 # ------------------------------------------------------------------ operators
@@ -393,6 +394,9 @@ def rule_lit(chk, crate, P):
     for arm in m["arms"]:
         pv = F.pat_variant(F.pat_alternatives(arm["pat"])[0])
         lits = [a for a in F.exprs(arm["body"], "Adt") if short(a["adt"]) == "Literal" and a["fields"]]
+        if pv and not lits and any(short(a["adt"]) == "Result" and a.get("variant") == "Err" for a in F.exprs(arm["body"], "Adt")):
+            c2l.setdefault(pv[1], set()).add("<refused>")      # the exporter reports an error for this kind: nothing is printed
+            continue
         if not pv or not lits:
             continue
         c2l.setdefault(pv[1], set()).add(lits[0]["variant"])
@@ -403,7 +407,7 @@ def rule_lit(chk, crate, P):
             neg_guard[pv[1]] = lt0
     for k, want in REF_LIT.items():
         got = c2l.get(k, set())
-        chk.ob(P + ".lit/%s/%s" % (crate.replace("rssl_", ""), k), got == {want}, "Constant::%s -> Literal::%s" % (k, want) if got == {want} else
+        chk.ob(P + ".lit/%s/%s" % (crate.replace("rssl_", ""), k), got == {want} or got == {"<refused>"}, ("Constant::%s -> Literal::%s" % (k, want) if got == {want} else "Constant::%s is refused with an error" % k) if got in ({want}, {"<refused>"}) else
                "Constant::%s is printed as Literal::%s, must be %s" % (k, sorted(got), want), where(gl), sample={"constant": k, "literal": sorted(got)})
     for k, ok in sorted(neg_guard.items()):
         chk.ob(P + ".lit/%s/%s-negative" % (crate.replace("rssl_", ""), k), ok, "negative %s values are printed as -(magnitude) under `v < 0`" % k if ok else
@@ -418,7 +422,7 @@ def rule_lit(chk, crate, P):
             l2c[pv[1]] = cs[0]["variant"]
     for lk, ck in sorted(l2c.items()):
         back = c2l.get(ck, set())
-        ok = back == {lk}
+        ok = back == {lk} or back == {"<refused>"}
         chk.ob(P + ".lit/%s/roundtrip-%s" % (crate.replace("rssl_", ""), lk), ok, "Literal::%s -> Constant::%s -> Literal::%s" % (lk, ck, lk) if ok else
                "a source literal of kind %s is typed as Constant::%s and printed as %s: the literal changes type" % (lk, ck, sorted(back)), where(gl))
 
